@@ -24,6 +24,7 @@ import (
 	"encoding/hex"
 	"encoding/pem"
 	"errors"
+	"fmt"
 	"os"
 
 	"github.com/youmark/pkcs8"
@@ -45,7 +46,10 @@ const (
 	AlgECDSA = "ECDSA"
 )
 
-var ErrNoSuchKey = errors.New("no such key")
+var (
+	ErrNoSuchKey           = errors.New("no such key")
+	ErrInvalidEncryptedKey = errors.New("invalid encrypted key")
+)
 
 type KeyStore interface {
 	GetKey(id string) (*Entry, error)
@@ -117,7 +121,7 @@ func createKeyStore(blocks []*pem.Block, password string) (keyStore, error) {
 		switch block.Type {
 		case pemBlockTypeEncryptedPrivateKey:
 			// PKCS#8 (PKCS#5 (v2.0) algorithms)
-			key, err = pkcs8.ParsePKCS8PrivateKey(block.Bytes, stringx.ToBytes(password))
+			key, err = parseEncryptedPrivateKey(block.Bytes, password)
 		case pemBlockTypePrivateKey:
 			// PKCS#8 - unencrypted
 			key, err = x509.ParsePKCS8PrivateKey(block.Bytes)
@@ -263,4 +267,18 @@ func createEntry(key any, keyID string) (*Entry, error) {
 		KeySize:    size,
 		PrivateKey: sigKey,
 	}, nil
+}
+
+// parseEncryptedPrivateKey decrypts and parses the given key. The used library does not check the encrypted
+// data and the parameters of the cipher before using them, so that a damaged entry (e.g. one with encrypted
+// data, which is not a multiple of the block size) results in a panic. Since key stores are also reloaded
+// while heimdall is running, that must not take the process down.
+func parseEncryptedPrivateKey(der []byte, password string) (key any, err error) {
+	defer func() {
+		if r := recover(); r != nil {
+			err = fmt.Errorf("%w: %v", ErrInvalidEncryptedKey, r)
+		}
+	}()
+
+	return pkcs8.ParsePKCS8PrivateKey(der, stringx.ToBytes(password))
 }
